@@ -329,7 +329,7 @@ impl Campaign for C19c {
             8 => 2_147_483_647,
             _ => g.range(0, 253_370_764_799),
         };
-        let n = g.usize(1, 2);
+        let n = g.usize(1, 4);
         let mut steps = vec![];
         let mut special = false;
         for r in 0..n {
@@ -346,7 +346,8 @@ impl Campaign for C19c {
                     }
                 }
                 if g.chance(1, 2) {
-                    steps.push(ClientStep::Pause(*g.pick(&[SEC, 61 * SEC, MS])));
+                    // gaps below one second that still cross a change of the second, and longer ones
+                    steps.push(ClientStep::Pause(*g.pick(&[SEC, 61 * SEC, MS, 300 * MS, 600 * MS, 999 * MS, 400 * MS])));
                     if sc.knobs.wall_base_secs == 253_370_764_799 {
                         steps.pop();
                     }
